@@ -1076,6 +1076,7 @@ class PhasedVcfWriter(VcfAugmenter):
         include_haploid_sets: bool = False,
         only_snvs: bool = False,
         mav: bool = False,
+        keep_phasing_of_skipped_records: bool = False,
     ):
         """
         in_path -- Path to input VCF, used as template.
@@ -1084,6 +1085,10 @@ class PhasedVcfWriter(VcfAugmenter):
         out_file -- Open file-like object to which VCF is written.
         tag -- which type of tag to write, either 'PS' or 'HP'. 'PS' is standardized;
             'HP' is compatible with GATK’s ReadBackedPhasing.
+        keep_phasing_of_skipped_records -- records for which no phasing is written (no or
+            several ALT alleles, duplicate position, non-SNV with only_snvs, position not phased
+            in any sample) keep the phase information they have in the input instead of losing
+            it. For callers that add to an existing phasing rather than replace it.
         """
         if tag not in ("HP", "PS"):
             raise ValueError('Tag must be either "HP" or "PS"')
@@ -1094,6 +1099,7 @@ class PhasedVcfWriter(VcfAugmenter):
         self._set_phasing_tags = self._set_HP if tag == "HP" else self._set_PS
         self._only_snvs = only_snvs
         self._mav = mav
+        self._keep_phasing_of_skipped_records = keep_phasing_of_skipped_records
 
     def setup_header(self, header: VariantHeader):
         """Called by baseclass constructor"""
@@ -1186,7 +1192,8 @@ class PhasedVcfWriter(VcfAugmenter):
 
         prev_pos = None
         for record in self._record_modifier(chromosome):
-            self._remove_existing_phasing(record, list(sample_superreads))
+            if not self._keep_phasing_of_skipped_records:
+                self._remove_existing_phasing(record, list(sample_superreads))
             pos = record.start
             if not record.alts:
                 continue
@@ -1209,6 +1216,8 @@ class PhasedVcfWriter(VcfAugmenter):
                         break
             else:
                 continue
+            if self._keep_phasing_of_skipped_records:
+                self._remove_existing_phasing(record, list(sample_superreads))
 
             # Set phase tag for all target samples
             for sample in sample_superreads:
